@@ -58,7 +58,7 @@ G_PARENTS = {"svg", "g", "defs", "symbol"}
 # foreign-namespace attributes whose *local* name is an SVG attribute the conversion reads
 FIELD_ATTRS = {"fill": "lime", "opacity": "0.1", "transform": "translate(40 40)", "display": "none", "d": "M0,0 L90,0 L90,90 Z", "cx": "1", "width": "1", "id": "dup", "style": "fill:pink"}
 TREE_NOISE = {"comment", "pi", "ws", "pi-before-root"}  # what SVG.fromstring's parser would have discarded while reading
-NOISE = ["comment", "pi", "title", "desc", "metadata", "foreignel", "symbol", "ws"]
+NOISE = ["comment", "pi", "title", "desc", "metadata", "foreignel", "symbol", "ws", "symbol-use", "symbol-style", "symbol-svg"]
 
 
 _ST = '<stop offset="0" stop-color="red"/><stop offset="1" stop-color="blue"/>'
@@ -136,8 +136,10 @@ def positions(root):
         nchild = len(el)
         for ci in range(nchild + 1):
             for kind in NOISE:
-                if kind == "symbol" and loc not in G_PARENTS:
+                if kind.startswith("symbol") and loc not in G_PARENTS:
                     continue
+                if kind in ("symbol-use", "symbol-style", "symbol-svg") and ci not in (0, nchild):
+                    continue  # the hostile id-less symbols: first and last position of every parent
                 ops.append((kind, ei, ci, 0))
         ops.append(("foreignattr-root", ei, 0, 0))
         ops.append(("foreignattr-self", ei, 0, 0))
@@ -199,6 +201,25 @@ def apply_ops(doc, ops):
             r = etree.SubElement(n, tag("rect"))
             r.set("width", "7")
             r.set("height", "7")
+            el.insert(ci, n)
+        elif kind in ("symbol-use", "symbol-style", "symbol-svg"):
+            # id-less symbols are never instantiated: whatever they contain is ignorable, however broken
+            n = etree.Element(tag("symbol"))
+            if kind == "symbol-use":
+                u = etree.SubElement(n, tag("use"))
+                u.set("{http://www.w3.org/1999/xlink}href", "#nowhere-to-be-found")
+                etree.SubElement(n, tag("use")).set("{http://www.w3.org/1999/xlink}href", "other.svg#ext")
+            elif kind == "symbol-style":
+                r = etree.SubElement(n, tag("rect"))
+                r.set("width", "7")
+                r.set("height", "oops")
+                r.set("style", "fill;;:x:y")
+                r.set("transform", "bogus(1)")
+            else:
+                v = etree.SubElement(n, tag("svg"))
+                v.set("overflow", "scroll")
+                v.set("viewBox", "0 0 0 0")
+                etree.SubElement(v, tag("rect")).set("width", "5")
             el.insert(ci, n)
         elif kind == "ws":
             if ci == 0:
@@ -416,7 +437,7 @@ def cases(tier, seed):
 def run(run):
     run.rule = (
         f"E2 deviation-bounded: {len(BASE_KINDS)} generated base documents + repository test inputs x noise kinds "
-        "{comment, PI, title, desc, metadata(with RDF), foreign-namespace element with children, id-less symbol with content, whitespace, "
+        "{comment, PI, title, desc, metadata(with RDF), foreign-namespace element with children, id-less symbol with content (plain; with dangling / external use; with unparsable style, transform and numbers; with a nested svg overflow=scroll), whitespace, "
         "foreign-namespace attribute (ns declared on root / on the element; also with local names that equal SVG attributes: fill, opacity, transform, display, d, cx, width, id, style), attribute-less wrapper g around 1-3 siblings, XML declaration, PI+comment before root}: "
         "3 hand-written bases whose authored ids look like generated ones (a / a_0 / a_1 gradients, nested-svg-viewport-0 clipPath); for comment / PI / whitespace noise additionally the caller-parsed-tree entry SVG(lxml tree) (comments must not survive); "
         "all single insertions at every tree position (quick; a subset of bases additionally with drop_unsupported=True / allow_text=True), all pairs on the generated set (thorough). Oracle: canonical form (gradient ids relabelled "
